@@ -44,7 +44,7 @@ EXEC_TIMEOUT = {"quick": 600, "thorough": 7200}
 
 
 def nontrivial(kind, ins, outs):
-    if kind in ("life", "tls"):
+    if kind in ("life", "tls", "lifet"):
         ops = ins[0].split(",")
         if "k" not in ops:
             return False
@@ -61,7 +61,7 @@ def nontrivial(kind, ins, outs):
 
 def shrink_candidates(inp):
     parts = inp.split(" ")
-    if parts[0] not in ("life", "tls") or len(parts) < 2 or parts[1] == "-":
+    if parts[0] not in ("life", "tls", "lifet") or len(parts) < 2 or parts[1] == "-":
         return
     ops = parts[1].split(",")
     for i in range(len(ops) - 1, -1, -1):
@@ -69,5 +69,5 @@ def shrink_candidates(inp):
         # dropping the opening of a session drops its later ops too
         if ops[i][0] in "oOA":
             sid = ops[i][1:].split(":")[0]
-            cand = [o for o in cand if not (o[0] in "pfaLqe" and o[1:].split(":")[0] == sid)]
+            cand = [o for o in cand if not (o[0] in "pfaLqeb" and o[1:].split(":")[0] == sid)]
         yield parts[0] + " " + (",".join(cand) if cand else "-")
